@@ -718,15 +718,17 @@ Section WithOracles.
 
   Inductive op :=
   | ORecv (line : str) (faults : list bool)
-  | OSend (m : msg) (buffered : bool) (faults : list bool).
+  | OSend (m : msg) (buffered : bool) (faults : list bool)
+  | OReconnect.   (* leave the session and enter it again (no persistence): Gateway.__aexit__ ; __aenter__ *)
 
   Definition op_ok (o : op) : Prop :=
-    match o with ORecv _ _ => True | OSend m _ _ => wf_msg m end.
+    match o with ORecv _ _ => True | OSend m _ _ => wf_msg m | OReconnect => True end.
 
   Definition step_op (w : world) (o : op) : world * outcome * list wevent :=
     match o with
     | ORecv line faults => recv bat vlt now w faults line
     | OSend m b faults => send_op w faults m b
+    | OReconnect => (w, Done, [])
     end.
 
   Definition world_after (w : world) (o : op) : world := fst (fst (step_op w o)).
@@ -758,7 +760,7 @@ Section WithOracles.
     /\ incl (keys w) (keys (world_after w o))
     /\ ~ is_escape (snd (fst (step_op w o))).
   Proof.
-    intros Hi Ho. unfold world_after. destruct o as [line faults|m b faults]; cbn [step_op].
+    intros Hi Ho. unfold world_after. destruct o as [line faults|m b faults|]; cbn [step_op].
     - unfold recv. rewrite run_step_world.
       destruct (good_listen_step line {| s_w := w; s_log := []; s_faults := faults |} Hi) as [H1 [[H2 _] H3]].
       split; [exact H1|split; [exact H2|]]. apply run_step_outcome; [intros a; cbn; tauto|exact H3].
@@ -766,6 +768,7 @@ Section WithOracles.
       destruct Ho as [_ [_ [Hk _]]].
       destruct (send_preserves m b {| s_w := w; s_log := []; s_faults := faults |} Hi Hk) as [H1 [[H2 _] [H3 _]]].
       split; [exact H1|split; [exact H2|]]. apply run_step_outcome; [intros a; cbn; tauto|exact H3].
+    - cbn [fst snd]. split; [exact Hi|split; [apply incl_refl|intros []]].
   Qed.
 
   Theorem run_ops_inv ops : forall w, Inv w -> Forall op_ok ops ->
